@@ -506,9 +506,44 @@ class Interp:
         name = 'u.' + h[3:] + str(W)
         if h == 'fp.roundToIntegral':
             name = 'u.rti_' + RMS.get(t[1], 'RNE') + str(W)
+        if h in FP_PREDS and W in (32, 64):
+            # comparisons and classifications are exact functions of the bit patterns (IEEE 754): only the
+            # arithmetic is uninterpreted in U. Models then carry real float values for every compared input.
+            self.upred(h, W)
+            return [name] + a
         ret = 'Bool' if h in FP_PREDS else BV(W)
         self.uf(name, [BV(W)] * len(a), ret)
         return [name] + a
+
+    def upred(self, h, W):
+        name = 'u.' + h[3:] + str(W)
+        if name in self.ufdecl:
+            return
+        E = 11 if W == 64 else 8
+        M = W - 1 - E
+        ones = '#b' + '1' * E
+        def ex(x): return f'((_ extract {W - 2} {M}) {x})'
+        def mt(x): return f'((_ extract {M - 1} 0) {x})'
+        def mag(x): return f'((_ extract {W - 2} 0) {x})'
+        def sg(x): return f'(= ((_ extract {W - 1} {W - 1}) {x}) #b1)'
+        def nan(x): return f'(and (= {ex(x)} {ones}) (not (= {mt(x)} #b{"0" * M})))'
+        def zero(x): return f'(= {mag(x)} #b{"0" * (W - 1)})'
+        eq = f'(and (not {nan("x")}) (not {nan("y")}) (or (= x y) (and {zero("x")} {zero("y")})))'
+        lt = (f'(and (not {nan("x")}) (not {nan("y")}) (not (and {zero("x")} {zero("y")})) '
+              f'(ite {sg("x")} (ite {sg("y")} (bvugt {mag("x")} {mag("y")}) true) (ite {sg("y")} false (bvult {mag("x")} {mag("y")}))))')
+        body = {
+            'fp.eq': eq, 'fp.lt': lt, 'fp.leq': f'(or {lt} {eq})',
+            'fp.isNaN': nan('x'),
+            'fp.isInfinite': f'(and (= {ex("x")} {ones}) (= {mt("x")} #b{"0" * M}))',
+            'fp.isZero': zero('x'),
+            'fp.isNegative': f'(and {sg("x")} (not {nan("x")}))',
+            'fp.isPositive': f'(and (not {sg("x")}) (not {nan("x")}))',
+            'fp.isNormal': f'(and (not (= {ex("x")} {ones})) (not (= {ex("x")} #b{"0" * E})))',
+            'fp.isSubnormal': f'(and (= {ex("x")} #b{"0" * E}) (not (= {mt("x")} #b{"0" * M})))',
+        }[h]
+        args = f'((x (_ BitVec {W})) (y (_ BitVec {W})))' if h in ('fp.eq', 'fp.lt', 'fp.leq') else f'((x (_ BitVec {W})))'
+        self.ufdecl[name] = f'(define-fun {name} {args} Bool {body})'
+        self.pending.append(self.ufdecl[name])
 
     def rminmax(self, cmp, a):
         # IEEE min/max ignore a NaN operand; NaN is the distinguished (otherwise unconstrained) real r_nan,
